@@ -124,6 +124,10 @@ pub fn fields() -> Vec<Field> {
     f.push(field!(icmpv6::echo_reply::EchoReplyPacket<'_>, "icmpv6::EchoReplyPacket", "sequence", 48, 16, 16, 8, "RFC 4443", |p, v| p.set_sequence(v as u16), |q| q.get_sequence()));
     f.push(field!(icmpv6::time_exceeded::TimeExceededPacket<'_>, "icmpv6::TimeExceededPacket", "length", 32, 8, 8, 8, "RFC 4884 4.4", |p, v| p.set_length(v as u8), |q| q.get_length()));
     f.push(field!(icmpv6::destination_unreachable::DestinationUnreachablePacket<'_>, "icmpv6::DestinationUnreachablePacket", "length", 32, 8, 8, 8, "RFC 4884 4.3", |p, v| p.set_length(v as u8), |q| q.get_length()));
+    // (no RFC positions a next-hop MTU in the ICMPv6 destination unreachable message - RFC 4443
+    // 3.1 leaves octets 4..8 unused and RFC 4884 takes the first of them; the view mirrors the
+    // RFC 1191 layout of its IPv4 twin: the last two of the four octets, network byte order)
+    f.push(field!(icmpv6::destination_unreachable::DestinationUnreachablePacket<'_>, "icmpv6::DestinationUnreachablePacket", "next_hop_mtu", 48, 16, 16, 8, "RFC 1191 layout (IPv4 twin)", |p, v| p.set_next_hop_mtu(v as u16), |q| q.get_next_hop_mtu()));
     // ---- ICMP extension structure, RFC 4884 section 7
     f.push(field!(ExtensionHeaderPacket<'_>, "ExtensionHeaderPacket", "version", 0, 4, 8, 4, "RFC 4884 7", |p, v| p.set_version(v as u8), |q| q.get_version()));
     f.push(field!(ExtensionHeaderPacket<'_>, "ExtensionHeaderPacket", "checksum", 16, 16, 16, 4, "RFC 4884 7", |p, v| p.set_checksum(v as u16), |q| q.get_checksum()));
@@ -294,7 +298,7 @@ fn constructors() -> Outcome {
 pub fn run(tier: Tier, seed: u64, only: Option<usize>) -> i32 {
     let mut rep = Report::new("C12", "exploration", tier, seed);
     rep.rule = "one case = one header field of one packet type, from a table written from the RFC diagrams (type, field, bit offset, bit width, RFC): for 4 (thorough 10) background fills (zeros, ones, random) and EVERY value of the setter's parameter type up to 16 bits (boundary, single-bit and 2 000..10 000 random values for wider fields), the buffer after the setter must equal the background with the truncated value written by a generic big-endian bit-field writer at the RFC position - byte for byte, so that every bit outside the field is checked - and the getter must return the truncated value without modifying the buffer; plus construction (new / new_view) for every type at every length 0..=64 against its minimum size; distinct by field".into();
-    rep.assumptions = vec!["the ICMPv6 destination unreachable view's next_hop_mtu accessor has no RFC-defined position and is not in the table; all other public setters of all packet types are".into()];
+    rep.assumptions = vec!["the ICMPv6 destination unreachable view's next_hop_mtu accessor has no RFC-defined position: it is judged against the layout of its IPv4 twin (RFC 1191: octets 6..8 of the message, network byte order), which is where the unchanged code puts it; every public setter of every packet type is in the table".into()];
     rep.required_clauses = vec!["write_places_truncated_value_at_rfc_position", "read_returns_truncated_value", "construction_iff_minimum_size"];
     let n = fields().len();
     rep.exhaustive = Some(true);
